@@ -60,7 +60,7 @@ def role_of(prog, key, _cache={}):
         calls_addr = any(t.get("rkey") and t.get("rkey") != key and prog.body(t["rkey"]) is not None and role_of(prog, t["rkey"]) == "address" for _, t in own)
         if any(n.startswith("bech32::decode") for n in names) and b.nargs == 2:
             r = "address"
-        elif calls_addr and any(n.startswith("std::collections::HashSet::") for n in names) and b.nargs == 2:
+        elif calls_addr and b.nargs == 2 and "Vec<" in (b.j.get("ret_ty") or ""):
             r = "addresses"
         elif any(n.endswith("is_ascii_alphabetic") for n in names):
             r = "denom"
@@ -221,13 +221,19 @@ def run(R, env):
         R.ob("C14.R2", "addresses:element-validation-site", len(elem_ctxs) == 1 and len(elem_ctxs[0][1]) == 1, "found %d contexts validating list elements" % len(elem_ctxs), fn=k)
         for ec, vcs in elem_ctxs[:1]:
             # world: the element was seen before — `seen.contains(x)` is true, `seen.insert(x)` answers false
-            dupw = ec.assume((lambda t: t[0] == "call" and t[1] == "std::collections::HashSet::contains", True), (lambda t: t[0] == "call" and t[1] == "std::collections::HashSet::insert", False)).settle()
-            n = sum(1 for _, atom in ec.atoms() for s_ in subterms(atom[1]) if s_[0] == "call" and s_[1] in ("std::collections::HashSet::contains", "std::collections::HashSet::insert"))
+            # (or, without a set: `earlier.iter().any(|o| o == x)` / `contains(x)` is true)
+            memb = lambda t: membership(prog, t, lambda c_: True, lambda e_: True)
+            dupw = ec.assume((lambda t: t[0] == "call" and t[1] == "std::collections::HashSet::contains", True), (lambda t: t[0] == "call" and t[1] == "std::collections::HashSet::insert", False), (None, lambda t: memb(t))).settle()
+            from engine.analysis import inline_walk as _iw3
+            n = sum(1 for c3, p3 in _iw3(prog, ec, 1) for _, atom in c3.atoms() for s_ in subterms(atom[1]) if (s_[0] == "call" and s_[1] in ("std::collections::HashSet::contains", "std::collections::HashSet::insert")) or memb(s_) is not None)
             pushes = [bi_ for bi_, t_, a_ in call_sites(dupw, lambda nm: nm == "std::vec::Vec::push")]
             accepted = bool(pushes) or (ec.body.kind == "closure" and bool(success_exits(dupw)))
             R.ob("C14.R2", "addresses:duplicate-test-precedes-acceptance", n >= 1 and not accepted, "a duplicate address can be accepted into the validated list", fn=k)
             a_ = vcs[0][2]
-            good = len(a_) == 2 and a_[1][0] == "param" and a_[1][1] == 2 and a_[0][0] == "payload" and shared.unwrap_payload(a_[0])[1].endswith("Iterator::next")
+            el_ = a_[0] if a_ else ("none",)
+            if el_[0] == "field" and el_[2] in ("0", "1") and el_[1][0] == "payload":
+                el_ = el_[1]  # element of an enumerate() / zip() pair
+            good = len(a_) == 2 and a_[1][0] == "param" and a_[1][1] == 2 and el_[0] == "payload" and shared.unwrap_payload(el_)[0] == "call" and shared.unwrap_payload(el_)[1].endswith("Iterator::next")
             R.ob("C14.R2", "addresses:each-element-validated-with-the-prefix", good, "list elements are not validated one by one with the prefix argument: validate(%s)" % ", ".join(fmt(x)[:60] for x in a_), fn=k)
     # ------------------------------------------------------------ R3 sinks
     who = {}
